@@ -772,6 +772,38 @@ def gen_op(rng, w):
         if withkids or rng.random() < 0.3: return {'k': 'pdelete', 'p': rng.choice(withkids) if withkids else rng.choice([0, 1])}
     any_obj = rng.choice(objs and range(len(objs)))
     o = rng.choice(live) if live and rng.random() < 0.9 else any_obj
+    fu = getattr(w, 'followup', None)
+    if fu is not None:
+        # after a refused multi-keyword set(): the value its FIRST keyword asked for must be free (create) and not findable (get)
+        w.followup = None
+        a, v = fu
+        if rng.random() < 0.5 and not cache.modified: return {'k': 'get', 'cls': 0, 'pk': None, 'kw': [[a, v]]}
+        kw = w.rand_create_kw(rng)
+        for i in range(n): kw.pop('a%d' % i, None)
+        kw['a%d' % a] = v
+        return {'k': 'create', 'cls': 0, 'kw': kw}
+    if r < 0.38 and objs[o]._status_ not in DEL and objs[o]._vals_ is not None and rng.random() < 0.3:
+        # a multi-keyword set() that must be refused AFTER an earlier key was moved: a simple unique attribute (preferably one
+        # that is None / not loaded now) gets a fresh value, a LATER key (simple or composite) gets a tuple another object holds
+        simple = [k[0] for k in w.keys if len(k) == 1]
+        held_by_others = lambda key, vals: any(x is not objs[o] and x._status_ not in DEL and x._vals_ is not None and
+                                               [x._vals_.get(w.attrs[a]) for a in key] == vals for x in objs)
+        cands = []
+        for ki, key in enumerate(w.keys):
+            for x in objs:
+                if x is objs[o] or x._status_ in DEL or x._vals_ is None: continue
+                vals = [x._vals_.get(w.attrs[a]) for a in key]
+                if None in vals: continue
+                firsts = [a for a in simple if w.keys.index([a]) < ki and a not in key]
+                if firsts: cands.append((key, vals, firsts))
+        if cands:
+            key, vals, firsts = rng.choice(cands)
+            nones = [a for a in firsts if objs[o]._vals_.get(w.attrs[a]) is None]
+            a = rng.choice(nones) if nones and rng.random() < 0.8 else rng.choice(firsts)
+            fresh = next((v for v in (8, 9, 7, 6, 5) if not held_by_others([a], [v])), None)
+            if fresh is not None:
+                w.followup_candidate = (a, fresh)
+                return {'k': 'set', 'o': o, 'changes': [[a, fresh]] + [[b, v] for b, v in zip(key, vals)], 'via': 'set'}
     if r < 0.38:
         k = 1 if rng.random() < 0.6 else rng.choice([1, 2, 2, 3])
         attrs = rng.sample(range(n), min(k, n))
@@ -851,6 +883,8 @@ def run_history(spec, pop_seed, ops=None, rng=None, nops=0, ctx=None, dbfile=Non
             if res.get('skip'):
                 if ctx: ctx.count('op-not-applicable:' + op['k'])
                 continue
+            cand = getattr(w, 'followup_candidate', None); w.followup_candidate = None
+            if cand is not None and op['k'] == 'set' and res.get('err') == 'CacheIndexError': w.followup = cand
             snap = w.snapshot()
             ys = (res.get('yields') or []) + (res.get('results') or [])
             bad = w.oracle(ys) + res.pop('extra_bad', [])
@@ -1034,6 +1068,16 @@ DIRECTED = [
      [{'k': 'create', 'cls': 0, 'kw': {'id': 1, 'a0': 1}}, {'k': 'create', 'cls': 1, 'kw': {'id': 2, 'a0': 2}}, {'k': 'flush'},
       {'k': 'get', 'cls': 1, 'pk': [1], 'kw': [], 'how': 'item'}, {'k': 'get', 'cls': 2, 'pk': None, 'kw': [[0, 1]]},
       {'k': 'get', 'cls': 2, 'pk': [2], 'kw': [], 'how': 'get'}, {'k': 'get', 'cls': 0, 'pk': [2], 'kw': [], 'how': 'item'}]),
+    # a refused set(**kw) whose FIRST keyword moved a unique attribute from None (resp. from not loaded) to a value before a later
+    # keyword conflicted: the undo must take the new entry out again — the value stays free and is not findable
+    ('refused-set-after-none', _spec(2, [True, True]),
+     [{'k': 'create', 'cls': 0, 'kw': {'id': 1, 'a1': 7}}, {'k': 'create', 'cls': 0, 'kw': {'id': 2}}, {'k': 'flush'},
+      {'k': 'set', 'o': 1, 'changes': [[0, 5], [1, 7]], 'via': 'set'}, {'k': 'flush'}, {'k': 'get', 'cls': 0, 'pk': None, 'kw': [[0, 5]]},
+      {'k': 'create', 'cls': 0, 'kw': {'id': 3, 'a0': 5}}, {'k': 'flush'}, {'k': 'get', 'cls': 0, 'pk': None, 'kw': [[0, 5]]}]),
+    ('refused-set-after-not-loaded', dict(_spec(3, [True, False, True], ckeys=[[1, 2]]), setup_rows=[{'id': 1, 'a1': 1, 'a2': 7}, {'id': 2, 'a0': 4}]),
+     [{'k': 'sql', 'attrs': [1, 2]}, {'k': 'set', 'o': 1, 'changes': [[0, 5], [2, 7]], 'via': 'set'},
+      {'k': 'set', 'o': 1, 'changes': [[0, 6], [1, 1], [2, 7]], 'via': 'set'}, {'k': 'create', 'cls': 0, 'kw': {'id': 3, 'a0': 5}},
+      {'k': 'create', 'cls': 0, 'kw': {'id': 4, 'a0': 6}}]),
     # a refused single assignment / set(): the FIRST composite key of the attribute was already moved when the SECOND one conflicts
     ('refused-assignment-second-composite', _spec(3, [False, False, False], ckeys=[[0, 1], [0, 2]]),
      [{'k': 'create', 'cls': 0, 'kw': {'id': 1, 'a0': 1, 'a1': 1, 'a2': 1}}, {'k': 'create', 'cls': 0, 'kw': {'id': 2, 'a0': 2, 'a1': 2, 'a2': 1}},
